@@ -240,7 +240,7 @@ func init() {
 	addControl(control{Prop: "C07", Name: "index-upper-bound-off-by-one", Rule: "R07a", Kind: "mutant",
 		File: "path.go", Old: "if i.i < 0 || i.i >= len(arr) {", New: "if i.i < 0 || i.i > len(arr) {", Expect: "R07a/(ucfg.idxField).GetValue"})
 	addControl(control{Prop: "C07", Name: "negative-set-index-unchecked", Rule: "R07a", Kind: "mutant",
-		File: "path.go", Old: "	if i.i < 0 {\n		return raiseIndexOutOfBounds(opts, elem, i.i)\n	}\n", New: "", Expect: "R07a/(*ucfg.fields).setAt"})
+		File: "path.go", Old: "	if i.i < 0 || int64(i.i) > opts.maxIdx {", New: "	if int64(i.i) > opts.maxIdx {", Expect: "R07a/(*ucfg.fields).setAt"})
 	addControl(control{Prop: "C07", Name: "lexer-end-of-input-test-removed", Rule: "R07a", Kind: "mutant",
 		File: "variables.go", Old: "				if len(content) <= off { // found '$' at end of string\n					return\n				}\n", New: "", Expect: "R07a/ucfg.lexer$1"})
 	addControl(control{Prop: "C07", Name: "dquote-scan-one-past-the-end", Rule: "R07a", Kind: "mutant",
@@ -553,4 +553,8 @@ func init() {
 		More: []edit{{"util.go", "import (\n	\"reflect\"\n	\"strings\"\n", "import (\n	\"reflect\"\n	\"strings\"\n	\"sync\"\n"}}})
 	addControl(control{Prop: "C02", Name: "dynamic-value-copied-as-struct", Rule: "R02g", Kind: "mutant", Quick: true,
 		File: "types.go", Old: "	return newDyn(c, d.meta(), d.dyn)", New: "	cp := *d\n	cp.ctx = c\n	return &cp", Expect: "R02g/(*ucfg.cfgDynamic).cpy"})
+	addControl(control{Prop: "C07", Name: "setter-index-uncapped", Rule: "R07c", Kind: "mutant", Quick: true,
+		File: "path.go", Old: "	if i.i < 0 || int64(i.i) > opts.maxIdx {", New: "	if i.i < 0 {", Expect: "R07c/(ucfg.idxField).SetValue"})
+	addControl(control{Prop: "C07", Name: "setter-index-cap-as-two-tests", Rule: "R07c", Kind: "refactor",
+		File: "path.go", Old: "	if i.i < 0 || int64(i.i) > opts.maxIdx {\n		// the index given to a setter is capped like an index parsed from a\n		// key: the list would have to grow to i+1 entries\n		return raiseIndexOutOfBounds(opts, elem, i.i)\n	}", New: "	if i.i < 0 {\n		return raiseIndexOutOfBounds(opts, elem, i.i)\n	}\n	if limit := opts.maxIdx; int64(i.i) > limit {\n		return raiseIndexOutOfBounds(opts, elem, i.i)\n	}"})
 }
